@@ -26,7 +26,10 @@ noncomputable instance instTranscReal : Transc ℝ where
   pi := Real.pi
   nan := 0
 
+instance instConjReal : Conj ℝ := ⟨fun x => x⟩
+
 namespace TranscReal
+@[simp] theorem conj_eq (x : ℝ) : Conj.conj x = x := rfl
 @[simp] theorem sqrt_eq (x : ℝ) : Transc.sqrt x = Real.sqrt x := rfl
 @[simp] theorem exp_eq (x : ℝ) : Transc.exp x = Real.exp x := rfl
 @[simp] theorem log_eq (x : ℝ) : Transc.log x = Real.log x := rfl
